@@ -186,7 +186,7 @@ theorem selWRR_sel {ws : List Nat} {pool : Pool} {c i : Nat} (h : (selWRR ws poo
       · split at h
         · cases h
         · rename_i ups hups
-          have := wrrCollect_sound ws _ pool [] [] ups (by simp) (by simp [hups])
+          have := wrrCollect_sound ws _ pool [] [] ups (by simp) hups
           have := this i (wrrPick_mem h)
           simp at this
           exact ⟨this.1, fun _ => this.2⟩
@@ -215,7 +215,7 @@ structure RcInv (pool : Pool) (bound : Nat) (ch : List Cand) : Prop where
   nodup : (ch.map Prod.fst).Nodup
 
 theorem nodup_set {α : Type} : ∀ (l : List α) (j : Nat) (a : α), l.Nodup → a ∉ l → (l.set j a).Nodup
-  | [], _, _, h, _ => by simpa using h
+  | [], _, _, h, _ => by simp
   | x :: xs, 0, a, h, ha => by
     simp only [List.set_cons_zero]
     rw [List.nodup_cons] at h ⊢
@@ -303,5 +303,434 @@ theorem rcGo_inv (k : Nat) : ∀ (rest pre : Pool) (ch : List Cand) (seen : Nat)
       · intro c hc
         exact ⟨(hinv.ok c hc).1, by have := hlt c hc; omega⟩
       · rw [numAvail_snoc, hseen]; simp [hu]
+
+/-! ### leastRequests returns a candidate with the least load -/
+
+/-- `(i, l)` is a candidate and no candidate has fewer requests -/
+def MinCand (ch : List Cand) (i : Nat) : Prop := ∃ l, (i, l) ∈ ch ∧ ∀ c ∈ ch, l ≤ c.2
+
+/-- invariant of the leastRequests loop after the candidates `done` -/
+def LrInv (done : List Cand) (best : List Nat) (br : Option Nat) : Prop :=
+  (done = [] ∧ best = [] ∧ br = none) ∨
+  (∃ m, br = some m ∧ best ≠ [] ∧ (∀ i ∈ best, (i, m) ∈ done) ∧ ∀ c ∈ done, m ≤ c.2)
+
+/-- what the leastRequests loop returns for the candidates `all` -/
+def LrPost (all : List Cand) : Sum Nat (List Nat) → Prop
+  | .inl i => MinCand all i
+  | .inr b => (all = [] ∧ b = []) ∨ (b ≠ [] ∧ ∀ i ∈ b, MinCand all i)
+
+theorem lrGo_spec : ∀ (rest done : List Cand) (best : List Nat) (br : Option Nat),
+    LrInv done best br → LrPost (done ++ rest) (lrGo rest best br)
+  | [], done, best, br, hinv => by
+    simp only [lrGo, List.append_nil, LrPost]
+    rcases hinv with ⟨h1, h2, _⟩ | ⟨m, _, hne, hmem, hmin⟩
+    · exact Or.inl ⟨h1, h2⟩
+    · exact Or.inr ⟨hne, fun i hi => ⟨m, hmem i hi, hmin⟩⟩
+  | (i, l) :: rest, done, best, br, hinv => by
+    unfold lrGo
+    split
+    · rename_i hl
+      subst hl
+      exact ⟨0, by simp, fun c _ => Nat.zero_le _⟩
+    · rename_i hl
+      have happ : done ++ (i, l) :: rest = (done ++ [(i, l)]) ++ rest := by simp
+      split
+      · rename_i hr
+        rw [happ]
+        apply lrGo_spec rest (done ++ [(i, l)]) [i] (some l)
+        refine Or.inr ⟨l, rfl, by simp, by simp, ?_⟩
+        intro c hc
+        rcases List.mem_append.1 hc with hc | hc
+        · rcases hinv with ⟨h1, _, _⟩ | ⟨m, hbr, _, _, hmin⟩
+          · subst h1; cases hc
+          · subst hbr
+            simp [lrReset] at hr
+            have := hmin c hc
+            omega
+        · simp at hc; subst hc; exact Nat.le_refl _
+      · rename_i hr
+        rcases hinv with ⟨_, _, h3⟩ | ⟨m, hbr, hne, hmem, hmin⟩
+        · subst h3; simp [lrReset] at hr
+        · subst hbr
+          simp [lrReset] at hr
+          split
+          · rename_i heq
+            simp at heq
+            subst heq
+            rw [happ]
+            apply lrGo_spec rest (done ++ [(i, m)]) (best ++ [i]) (some m)
+            refine Or.inr ⟨m, rfl, by simp, ?_, ?_⟩
+            · intro x hx
+              rcases List.mem_append.1 hx with hx | hx
+              · exact List.mem_append_left _ (hmem x hx)
+              · simp at hx; subst hx; simp
+            · intro c hc
+              rcases List.mem_append.1 hc with hc | hc
+              · exact hmin c hc
+              · simp at hc; subst hc; exact Nat.le_refl _
+          · rw [happ]
+            apply lrGo_spec rest (done ++ [(i, l)]) best (some m)
+            refine Or.inr ⟨m, rfl, hne, ?_, ?_⟩
+            · intro x hx; exact List.mem_append_left _ (hmem x hx)
+            · intro c hc
+              rcases List.mem_append.1 hc with hc | hc
+              · exact hmin c hc
+              · simp at hc; subst hc; exact hr
+
+theorem lrPick_mem {best : List Nat} {ds : List Nat} {i : Nat} (h : (lrPick best ds).1 = .sel i) : i ∈ best := by
+  unfold lrPick at h
+  split at h
+  · cases h
+  · cases h; simp
+  · split at h
+    · cases h
+    · split at h
+      · rename_i x hx
+        cases h
+        exact List.mem_of_getElem? hx
+      · cases h
+
+theorem leastRequests_spec {ch : List Cand} {ds : List Nat} {i : Nat}
+    (h : (leastRequests ch ds).1 = .sel i) : MinCand ch i := by
+  unfold leastRequests at h
+  split at h
+  · cases h
+  · have hs := lrGo_spec ch [] [] none (Or.inl ⟨rfl, rfl, rfl⟩)
+    simp only [List.nil_append] at hs
+    split at h
+    · rename_i j hj
+      rw [hj] at hs
+      cases h
+      exact hs
+    · rename_i best hb
+      rw [hb] at hs
+      simp only [LrPost] at hs
+      have hm := lrPick_mem h
+      rcases hs with ⟨_, hb0⟩ | ⟨_, hall⟩
+      · subst hb0; cases hm
+      · exact hall i hm
+
+/-- what `random_choose` guarantees about the upstream it returns -/
+theorem selRandomChoose_spec {k : Nat} {pool : Pool} {ds : List Nat} {i : Nat}
+    (h : (selRandomChoose k pool ds).1 = .sel i) :
+    ∃ ch : List Cand, (∀ c ∈ ch, CandOK pool c) ∧ (ch.map Prod.fst).Nodup ∧
+      ch.length = min (min k pool.length) (numAvail pool) ∧ MinCand ch i := by
+  unfold selRandomChoose at h
+  split at h
+  · cases h
+  · rename_i ch ds' hrc
+    have := rcGo_inv (min k pool.length) pool [] [] 0 ds ch ds' ⟨by simp, by simp⟩ (by simp) (by simp [numAvail])
+      (by simpa using hrc)
+    simp only [List.nil_append] at this
+    exact ⟨ch, fun c hc => (this.1.ok c hc).1, this.1.nodup, this.2, leastRequests_spec h⟩
+
+theorem selRandomChoose_safe (k : Nat) (pool : Pool) (ds : List Nat) : Safe pool (selRandomChoose k pool ds).1 := by
+  intro i h
+  obtain ⟨ch, hok, _, _, l, hmem, _⟩ := selRandomChoose_spec h
+  obtain ⟨u, hu, hav, _⟩ := hok _ hmem
+  exact ⟨u, hu, hav⟩
+
+/-! ### cookie -/
+
+theorem cookieGo_spec (c : Nat) : ∀ (rest pre : Pool) (i : Nat), cookieGo c rest pre.length = some i →
+    ∃ u, (pre ++ rest)[i]? = some u ∧ u.avail = true ∧ u.id = c ∧ pre.length ≤ i ∧
+      ∀ j v, pre.length ≤ j → j < i → (pre ++ rest)[j]? = some v → ¬(v.avail = true ∧ v.id = c)
+  | [], pre, i, h => by simp [cookieGo] at h
+  | u :: rest, pre, i, h => by
+    unfold cookieGo at h
+    split at h
+    · rename_i hu
+      simp at hu h
+      subst h
+      exact ⟨u, by simp, hu.1, hu.2, Nat.le_refl _, fun j v h1 h2 => by omega⟩
+    · rename_i hu
+      have := cookieGo_spec c rest (pre ++ [u]) i
+      rw [snoc_append, snoc_length] at this
+      obtain ⟨v, hv, hav, hid, hle, hfirst⟩ := this h
+      refine ⟨v, hv, hav, hid, by omega, ?_⟩
+      intro j x h1 h2 hx
+      by_cases hj : j = pre.length
+      · subst hj
+        simp at hx
+        subst hx
+        simpa using hu
+      · exact hfirst j x (by omega) h2 hx
+
+/-! ### every policy is safe -/
+
+theorem cookieRes_sel {w : Bool} {r : Res} {i : Nat} (h : cookieRes w r = .sel i) : r = .sel i := by
+  unfold cookieRes at h
+  split at h
+  · split at h
+    · exact h
+    · cases h
+  · exact h
+
+theorem select_safe : ∀ (p : Policy) (w : Bool) (pool : Pool) (ds : List Nat), Safe pool (select w p pool ds).res
+  | .first, w, pool, ds => by simp only [select]; exact selFirst_safe pool
+  | .rr c, w, pool, ds => by simp only [select]; exact selRR_safe pool c
+  | .wrr ws c, w, pool, ds => by simp only [select]; exact selWRR_safe ws pool c
+  | .leastConn, w, pool, ds => by simp only [select]; exact selLeastConn_safe pool ds
+  | .random, w, pool, ds => by simp only [select]; exact selRandom_safe pool ds
+  | .randomChoose k, w, pool, ds => by simp only [select]; exact selRandomChoose_safe k pool ds
+  | .hash, w, pool, ds => by simp only [select]; exact selHash_safe pool
+  | .keyed true fb, w, pool, ds => by simp only [select]; exact selHash_safe pool
+  | .keyed false fb, w, pool, ds => by simp only [select]; exact select_safe fb false pool ds
+  | .cookie none fb, w, pool, ds => by
+    simp only [select]
+    intro i h
+    exact select_safe fb w pool ds i (cookieRes_sel h)
+  | .cookie (some c) fb, w, pool, ds => by
+    simp only [select]
+    split
+    · rename_i j hj
+      intro i h
+      cases h
+      obtain ⟨u, hu, hav, _⟩ := cookieGo_spec c pool [] j hj
+      exact ⟨u, by simpa using hu, hav⟩
+    · intro i h
+      exact select_safe fb w pool ds i (cookieRes_sel h)
+
+/-! ### first: the earliest available upstream -/
+
+theorem firstGo_spec : ∀ (rest pre : Pool),
+    (firstGo rest pre.length = .none ∧ ∀ v ∈ rest, v.avail = false) ∨
+    (∃ i, firstGo rest pre.length = .sel i ∧ pre.length ≤ i ∧
+      ∀ j v, pre.length ≤ j → j < i → (pre ++ rest)[j]? = some v → v.avail = false)
+  | [], pre => by simp [firstGo]
+  | u :: rest, pre => by
+    unfold firstGo
+    split
+    · exact Or.inr ⟨pre.length, rfl, Nat.le_refl _, fun j v h1 h2 => by omega⟩
+    · rename_i hu
+      have := firstGo_spec rest (pre ++ [u])
+      rw [snoc_append, snoc_length] at this
+      rcases this with ⟨h1, h2⟩ | ⟨i, h1, h2, h3⟩
+      · refine Or.inl ⟨h1, ?_⟩
+        intro v hv
+        rcases List.mem_cons.1 hv with hv | hv
+        · subst hv; simpa using hu
+        · exact h2 v hv
+      · refine Or.inr ⟨i, h1, by omega, ?_⟩
+        intro j v hj1 hj2 hv
+        by_cases hj : j = pre.length
+        · subst hj
+          simp at hv
+          subst hv
+          simpa using hu
+        · exact h3 j v (by omega) hj2 hv
+
+theorem anyAvail_iff {pool : Pool} : anyAvail pool = true ↔ ∃ v ∈ pool, v.avail = true := by
+  simp [anyAvail]
+
+/-! ### round robin: the result is the first available probe position -/
+
+theorem inc32_of_lt {c : Nat} (h : c + 1 < u32) : inc32 c = c + 1 := by
+  unfold inc32; exact Nat.mod_eq_of_lt h
+
+theorem availB_true {pool : Pool} {i : Nat} : availB pool i = true ↔ AvailAt pool i := by
+  unfold availB AvailAt
+  cases pool[i]? <;> simp
+
+/-- what one run of the round-robin loop does when the counter does not wrap -/
+theorem rrGo_char (pool : Pool) (hn : 0 < pool.length) : ∀ (fuel c : Nat), c + fuel < u32 →
+    (∃ i c', rrGo pool fuel c = (.sel i, c') ∧ c < c' ∧ c' ≤ c + fuel ∧ i = c' % pool.length ∧ AvailAt pool i ∧
+      ∀ t, c < t → t < c' → availB pool (t % pool.length) = false) ∨
+    (rrGo pool fuel c = (.none, c + fuel) ∧ ∀ t, c < t → t ≤ c + fuel → availB pool (t % pool.length) = false)
+  | 0, c, _ => Or.inr ⟨by simp [rrGo], fun t h1 h2 => by omega⟩
+  | fuel + 1, c, hc => by
+    have hinc : inc32 c = c + 1 := inc32_of_lt (by omega)
+    unfold rrGo
+    rw [hinc]
+    have hlt : (c + 1) % pool.length < pool.length := Nat.mod_lt _ hn
+    split
+    · rename_i u hu
+      split
+      · rename_i hav
+        exact Or.inl ⟨_, c + 1, rfl, by omega, by omega, rfl, ⟨u, hu, hav⟩, fun t h1 h2 => by omega⟩
+      · rename_i hav
+        have hfalse : availB pool ((c + 1) % pool.length) = false := by
+          unfold availB; rw [hu]; simpa using hav
+        rcases rrGo_char pool hn fuel (c + 1) (by omega) with ⟨i, c', h1, h2, h3, h4, h5, h6⟩ | ⟨h1, h2⟩
+        · refine Or.inl ⟨i, c', h1, by omega, by omega, h4, h5, ?_⟩
+          intro t ht1 ht2
+          by_cases ht : t = c + 1
+          · subst ht; exact hfalse
+          · exact h6 t (by omega) ht2
+        · refine Or.inr ⟨by rw [h1]; congr 1; omega, ?_⟩
+          intro t ht1 ht2
+          by_cases ht : t = c + 1
+          · subst ht; exact hfalse
+          · exact h2 t (by omega) (by omega)
+    · rename_i hnone
+      have := List.getElem?_eq_none_iff.1 hnone
+      omega
+
+/-- among `n` consecutive counter values every residue modulo `n` occurs -/
+theorem residue_hit (n c j : Nat) (hj : j < n) : ∃ t, c < t ∧ t ≤ c + n ∧ t % n = j := by
+  have hc := Nat.div_add_mod c n
+  have hr : c % n < n := Nat.mod_lt _ (by omega)
+  by_cases h : c % n < j
+  · refine ⟨n * (c / n) + j, by omega, by omega, ?_⟩
+    rw [Nat.mul_add_mod_self_left]; exact Nat.mod_eq_of_lt hj
+  · refine ⟨n * (c / n) + (n + j), by omega, by omega, ?_⟩
+    rw [Nat.mul_add_mod_self_left, Nat.add_mod_left]; exact Nat.mod_eq_of_lt hj
+
+theorem availAt_of_mem {pool : Pool} {v : Up} (hv : v ∈ pool) (ha : v.avail = true) : ∃ j, j < pool.length ∧ AvailAt pool j := by
+  obtain ⟨j, hj, hget⟩ := List.getElem_of_mem hv
+  exact ⟨j, hj, v, by simp [hj, hget], ha⟩
+
+/-! ### random: something is chosen as soon as one upstream is available -/
+
+theorem rndGo_live : ∀ (rest : Pool) (i : Nat) (best : Res) (count : Nat) (ds : List Nat),
+    (best ≠ .none ∨ (count = 0 ∧ anyAvail rest = true)) → (rndGo rest i best count ds).1 ≠ .none
+  | [], i, best, count, ds, h => by
+    rcases h with h | ⟨_, h⟩
+    · simpa [rndGo] using h
+    · simp [anyAvail] at h
+  | u :: rest, i, best, count, ds, h => by
+    unfold rndGo
+    split
+    · rename_i hu
+      split
+      · simp
+      · rename_i d ds'
+        split
+        · exact rndGo_live rest _ _ _ _ (Or.inl (by simp))
+        · rename_i hd
+          rcases h with h | ⟨h, _⟩
+          · exact rndGo_live rest _ _ _ _ (Or.inl h)
+          · subst h; simp [Nat.mod_one] at hd
+    · rename_i hu
+      apply rndGo_live rest
+      rcases h with h | ⟨h1, h2⟩
+      · exact Or.inl h
+      · refine Or.inr ⟨h1, ?_⟩
+        simp [anyAvail] at h2 ⊢
+        rcases h2 with h2 | h2
+        · exact absurd h2 hu
+        · exact h2
+
+/-! ### least_conn: the result carries the least load among the available upstreams -/
+
+/-- invariant of the least_conn loop after the upstreams `pre` of `pool` -/
+def LcInv (pool pre : Pool) (best : Res) (least : Option Nat) : Prop :=
+  (least = none ∧ best = .none ∧ ∀ v ∈ pre, v.avail = false) ∨
+  (∃ m j u, least = some m ∧ best = .sel j ∧ pool[j]? = some u ∧ u.load = m ∧
+    ∀ v ∈ pre, v.avail = true → m ≤ v.load)
+
+/-- what least_conn guarantees: nil only if nothing is available; a returned upstream is
+    minimally loaded among the available ones -/
+def LcPost (pool : Pool) (r : Res) : Prop :=
+  (r = .none → ∀ v ∈ pool, v.avail = false) ∧
+  (∀ i, r = .sel i → ∃ u, pool[i]? = some u ∧ ∀ v ∈ pool, v.avail = true → u.load ≤ v.load) ∧
+  r.isPanic = false
+
+theorem lcGo_spec : ∀ (rest pre : Pool) (best : Res) (count : Nat) (least : Option Nat) (ds : List Nat),
+    LcInv (pre ++ rest) pre best least → LcPost (pre ++ rest) (lcGo rest pre.length best count least ds).1
+  | [], pre, best, count, least, ds, hinv => by
+    simp only [lcGo, List.append_nil] at hinv ⊢
+    rcases hinv with ⟨_, h2, h3⟩ | ⟨m, j, u, _, h2, h3, h4, h5⟩
+    · subst h2; exact ⟨fun _ => h3, fun i h => (by cases h), rfl⟩
+    · subst h2
+      refine ⟨fun h => (by cases h), fun i h => ?_, rfl⟩
+      cases h
+      exact ⟨u, h3, fun v hv ha => by rw [h4]; exact h5 v hv ha⟩
+  | u :: rest, pre, best, count, least, ds, hinv => by
+    have hmid : (pre ++ u :: rest)[pre.length]? = some u := by simp
+    -- the invariant after `u` when `u` becomes / stays / is not the best
+    have hnewbest : ∀ m, m = u.load → (∀ v ∈ pre, v.avail = true → m ≤ v.load) →
+        LcInv (pre ++ u :: rest) (pre ++ [u]) (.sel pre.length) (some m) := by
+      intro m hm hall
+      refine Or.inr ⟨m, pre.length, u, rfl, rfl, hmid, hm.symm, ?_⟩
+      intro v hv ha
+      rcases List.mem_append.1 hv with hv | hv
+      · exact hall v hv ha
+      · simp at hv; subst hv; omega
+    unfold lcGo
+    split
+    · rename_i hu
+      split
+      · rename_i hleast
+        -- numReqs == leastReqs after the update
+        have hall : ∀ v ∈ pre, v.avail = true → u.load ≤ v.load := by
+          intro v hv ha
+          rcases hinv with ⟨_, _, h3⟩ | ⟨m, j, x, h1, _, _, _, h5⟩
+          · rw [h3 v hv] at ha; cases ha
+          · subst h1
+            have := h5 v hv ha
+            unfold lcLeast at hleast
+            split at hleast
+            · rename_i hr; simp [lcReset] at hr; omega
+            · simp at hleast; omega
+        rw [hleast]
+        split
+        · have := lcGo_spec rest (pre ++ [u]) (.sel pre.length) (lcCount u.load least count + 1) (some u.load) ds
+          rw [snoc_append, snoc_length] at this
+          exact this (hnewbest _ rfl hall)
+        · split
+          · exact ⟨fun h => (by cases h), fun i h => (by cases h), rfl⟩
+          · rename_i d ds'
+            split
+            · have := lcGo_spec rest (pre ++ [u]) (.sel pre.length) (lcCount u.load least count + 1) (some u.load) ds'
+              rw [snoc_append, snoc_length] at this
+              exact this (hnewbest _ rfl hall)
+            · have := lcGo_spec rest (pre ++ [u]) best (lcCount u.load least count + 1) (some u.load) ds'
+              rw [snoc_append, snoc_length] at this
+              apply this
+              -- `u` ties with the current best, which is kept
+              rcases hinv with ⟨h1, _, _⟩ | ⟨m, j, x, h1, h2, h3, h4, h5⟩
+              · subst h1
+                rename_i hc _
+                simp [lcCount, lcReset] at hc
+              · subst h1
+                have hm : m = u.load := by
+                  unfold lcLeast at hleast
+                  split at hleast
+                  · rename_i hr
+                    rename_i hc _
+                    simp [lcCount, hr] at hc
+                  · simpa using hleast
+                refine Or.inr ⟨u.load, j, x, rfl, h2, h3, by omega, ?_⟩
+                intro v hv ha
+                rcases List.mem_append.1 hv with hv | hv
+                · have := h5 v hv ha; omega
+                · simp at hv; subst hv; omega
+      · rename_i hleast
+        -- `u` is more loaded than the current least: nothing changes
+        have := lcGo_spec rest (pre ++ [u]) best (lcCount u.load least count) (lcLeast u.load least) ds
+        rw [snoc_append, snoc_length] at this
+        apply this
+        rcases hinv with ⟨h1, _, _⟩ | ⟨m, j, x, h1, h2, h3, h4, h5⟩
+        · subst h1; simp [lcLeast, lcReset] at hleast
+        · subst h1
+          have hr : lcReset u.load (some m) = false := by
+            cases hh : lcReset u.load (some m)
+            · rfl
+            · simp [lcLeast, hh] at hleast
+          have hlt : m < u.load := by
+            simp [lcReset] at hr
+            simp [lcLeast, lcReset, hr] at hleast
+            omega
+          refine Or.inr ⟨m, j, x, by simp [lcLeast, hr], h2, h3, h4, ?_⟩
+          intro v hv ha
+          rcases List.mem_append.1 hv with hv | hv
+          · exact h5 v hv ha
+          · simp at hv; subst hv; omega
+    · rename_i hu
+      have := lcGo_spec rest (pre ++ [u]) best count least ds
+      rw [snoc_append, snoc_length] at this
+      apply this
+      rcases hinv with ⟨h1, h2, h3⟩ | ⟨m, j, x, h1, h2, h3, h4, h5⟩
+      · refine Or.inl ⟨h1, h2, ?_⟩
+        intro v hv
+        rcases List.mem_append.1 hv with hv | hv
+        · exact h3 v hv
+        · simp at hv; subst hv; simpa using hu
+      · refine Or.inr ⟨m, j, x, h1, h2, h3, h4, ?_⟩
+        intro v hv ha
+        rcases List.mem_append.1 hv with hv | hv
+        · exact h5 v hv ha
+        · simp at hv; subst hv; rw [ha] at hu; exact absurd rfl hu
 
 end CaddyModel.C08
